@@ -41,7 +41,8 @@ type SymField struct {
 const (
 	rfValid = 1
 	rfAddr  = 2
-	rfRO    = 4 // obtained through an unexported field
+	rfRO    = 4 // obtained through an unexported, non-embedded field (reflect's flagStickyRO)
+	rfEmbRO = 8 // the value IS an unexported embedded field (flagEmbedRO: not inherited by its fields)
 )
 
 func (in *Interp) rtypeIfaceType() types.Type {
@@ -209,6 +210,37 @@ func (in *Interp) rfieldByName(t RType, name string) int {
 	return -1
 }
 
+// rpromoted finds a field promoted from an embedded struct field of t (one level deep, the
+// embedded field being a struct, not a pointer): (index of the embedded field, index within).
+// Ambiguous names (promoted from two embedded structs) are not found, as in Go.
+func (in *Interp) rpromoted(t RType, name string) (int, int) {
+	if t.Sym != nil {
+		return -1, -1
+	}
+	st := in.rstruct(t)
+	fe, fj, n := -1, -1, 0
+	for e := 0; e < st.NumFields(); e++ {
+		f := st.Field(e)
+		if !f.Embedded() {
+			continue
+		}
+		es, ok := f.Type().Underlying().(*types.Struct)
+		if !ok {
+			continue
+		}
+		for j := 0; j < es.NumFields(); j++ {
+			if es.Field(j).Name() == name {
+				fe, fj = e, j
+				n++
+			}
+		}
+	}
+	if n != 1 {
+		return -1, -1
+	}
+	return fe, fj
+}
+
 func (in *Interp) rfieldType(t RType, i int) (types.Type, bool) {
 	if t.Sym != nil {
 		return t.Sym.Fields[i].T, true
@@ -332,7 +364,11 @@ func init() {
 		ft, exported := in.rfieldType(v.t, i)
 		fl := uint64(rfValid) | (v.flags & (rfAddr | rfRO))
 		if !exported {
-			fl |= rfRO
+			if v.t.Sym == nil && in.rstruct(v.t).Field(i).Embedded() {
+				fl |= rfEmbRO
+			} else {
+				fl |= rfRO
+			}
 		}
 		return in.mkRValue(RType{T: ft}, &(*v.cell).(Struct)[i], fl)
 	}
@@ -344,21 +380,26 @@ func init() {
 		if v.flags&rfValid == 0 || rkind(v.t.T) != reflect.Struct {
 			in.goPanic("reflect: call of reflect.Value.FieldByName on " + rkind(v.t.T).String() + " Value")
 		}
-		i := in.rfieldByName(v.t, in.mustConcStr(args[1], "field name"))
+		name := in.mustConcStr(args[1], "field name")
+		i := in.rfieldByName(v.t, name)
 		if i < 0 {
+			// a field promoted from an embedded struct (one level)
+			if e, j := in.rpromoted(v.t, name); e >= 0 {
+				return rfield(in, in.rv(rfield(in, v, e)), j)
+			}
 			return in.zero(call.Signature().Results().At(0).Type())
 		}
 		return rfield(in, v, i)
 	})
 	reg("(reflect.Value).CanSet", func(in *Interp, fr *frame, call *ssa.CallCommon, args []Value) Value {
 		v := in.rv(args[0])
-		return in.Ctx.Bool(v.flags&rfAddr != 0 && v.flags&rfRO == 0)
+		return in.Ctx.Bool(v.flags&rfAddr != 0 && v.flags&(rfRO|rfEmbRO) == 0)
 	})
 	mustSet := func(in *Interp, v rval, what string) {
 		if v.flags&rfValid == 0 {
 			in.goPanic("reflect: call of reflect.Value." + what + " on zero Value")
 		}
-		if v.flags&rfRO != 0 {
+		if v.flags&(rfRO|rfEmbRO) != 0 {
 			in.goPanic("reflect: reflect.Value." + what + " using value obtained using unexported field")
 		}
 		if v.flags&rfAddr == 0 {
@@ -371,7 +412,7 @@ func init() {
 		if x.flags&rfValid == 0 {
 			in.goPanic("reflect: call of reflect.Value.Set on zero Value")
 		}
-		if x.flags&rfRO != 0 {
+		if x.flags&(rfRO|rfEmbRO) != 0 {
 			in.goPanic("reflect: reflect.Value.Set using value obtained using unexported field")
 		}
 		if _, isIface := v.t.T.Underlying().(*types.Interface); isIface {
@@ -405,7 +446,7 @@ func init() {
 		if v.flags&rfValid == 0 {
 			in.goPanic("reflect: call of reflect.Value.Interface on zero Value")
 		}
-		if v.flags&rfRO != 0 {
+		if v.flags&(rfRO|rfEmbRO) != 0 {
 			in.goPanic("reflect.Value.Interface: cannot return value obtained from unexported field or method")
 		}
 		if _, isIface := v.t.T.Underlying().(*types.Interface); isIface {
@@ -567,8 +608,13 @@ func init() {
 		if rkind(t.T) != reflect.Struct {
 			in.goPanic("reflect: FieldByName of non-struct type " + typeString(t.T))
 		}
-		i := in.rfieldByName(t, in.mustConcStr(args[1], "field name"))
+		name := in.mustConcStr(args[1], "field name")
+		i := in.rfieldByName(t, name)
 		if i < 0 {
+			if e, j := in.rpromoted(t, name); e >= 0 {
+				et, _ := in.rfieldType(t, e)
+				return Tuple{in.mkStructField(RType{T: et}, j), in.Ctx.T}
+			}
 			return Tuple{in.zero(in.structFieldType()), in.Ctx.F}
 		}
 		return Tuple{in.mkStructField(t, i), in.Ctx.T}
